@@ -515,9 +515,12 @@ def run(tier, seed, jobs):
     work = [("b1", op, 20, d1) for op in ops_b1()]
     if tier == "thorough":
         starts = [op for op in ops_b1() if op[0] == "b1" and op[2] == 0 and op[3] == 1][:6]
-        work += [("b1", (a, b), 20, 4) for a in starts[:4] for b in ops_b1()]      # (behind a prefix of two: total depth 5)
-    for rlen in (0, 17, 64, 200, -64, 1064) if tier == "thorough" else (17, 64, -64, 1064):
+        work += [("b1", (a, b), 20, 4) for a in starts[:2] for b in ops_b1()]      # (behind a prefix of two: total depth 5)
+    for rlen in (17, 64, -64, 1064):
         work += [("b2", op, rlen, d2) for op in ops_b2()]
+    if tier == "thorough":
+        for rlen in (0, 200):
+            work += [("b2", op, rlen, 3) for op in ops_b2()]
     # long transfers: every gap short, total duration beyond the lifetime (state must be refreshed by each use)
     long1 = (("b1", 1, 0, 1, 0, 16, "a", None, "PUT"), ("t", MTW - 0.1), ("b1", 1, 1, 1, 0, 16, "a", None, "PUT"))
     long2 = (("b2", 1, 0, 0), ("t", MTW - 0.1), ("b2", 1, 1, 0))
